@@ -240,28 +240,43 @@ impl<'a> WExec<'a> {
         if wcalls != 1 {
             return self.fail("stream-call-count", format!("try_write made {} write calls (exactly one expected while output is pending)", wcalls));
         }
-        let head = self.refq.front().unwrap().clone();
-        if offered != head {
+        // C06: what the stream accepts must at all times extend a prefix of the concatenation of
+        // the serialized responses in enqueue order - so whatever is offered must be a non-empty
+        // prefix of everything still unsent (it may stop short of, or run past, a response boundary)
+        let unsent: Vec<u8> = self.refq.iter().flat_map(|r| r.iter().cloned()).collect();
+        if offered.is_empty() || !unsent.starts_with(&offered) {
             return self.fail(
                 "offered-slice",
-                format!("the slice offered to the stream ({} bytes: {:?}) is not the unsent remainder of the head response ({} bytes: {:?})", offered.len(), show(&offered[..offered.len().min(40)]), head.len(), show(&head[..head.len().min(40)])),
+                format!("the slice offered to the stream ({} bytes: {:?}) is not a non-empty prefix of the unsent bytes of the enqueued responses ({} bytes: {:?})", offered.len(), show(&offered[..offered.len().min(40)]), unsent.len(), show(&unsent[..unsent.len().min(40)])),
             );
         }
         match a {
-            WAct::Accept(k) => {
-                let k = k as usize;
-                self.expected_accepted.extend_from_slice(&head[..k]);
-                if k == head.len() {
-                    self.refq.pop_front();
-                    self.head_started = false;
-                    self.facts |= 1 << 5;
-                } else {
-                    self.refq.front_mut().unwrap().drain(..k);
-                    self.head_started = true;
-                    self.facts |= 1 << 0;
+            WAct::Accept(_) => {
+                // what the stream really took (it cannot take more than it was offered)
+                let mut k = accepted_now.len();
+                self.expected_accepted.extend_from_slice(&offered[..k]);
+                if k == 0 {
+                    return self.fail("harness", "scripted stream accepted nothing on Accept".into());
+                }
+                while k > 0 {
+                    let hl = self.refq.front().map(|h| h.len()).unwrap_or(0);
+                    if hl == 0 {
+                        break;
+                    }
+                    if k >= hl {
+                        self.refq.pop_front();
+                        k -= hl;
+                        self.head_started = false;
+                        self.facts |= 1 << 5;
+                    } else {
+                        self.refq.front_mut().unwrap().drain(..k);
+                        k = 0;
+                        self.head_started = true;
+                        self.facts |= 1 << 0;
+                    }
                 }
                 if !matches!(r, Ok(Ok(()))) {
-                    return self.fail("write-result", format!("the stream accepted {} bytes but try_write returned {}", k, rs));
+                    return self.fail("write-result", format!("the stream accepted {} bytes but try_write returned {}", accepted_now.len(), rs));
                 }
             }
             WAct::Eintr => {
